@@ -170,10 +170,13 @@ def coq_eval(cfg, cases, workdir, tag="gen"):
             f.write(";\n".join("  (" + c["coq"] + ")" for c in shard))
             f.write("\n].\n")
             f.write("Definition M := Eval vm_compute in %s cases.\nPrint M.\n" % cfg["verdicts"])
+            # case_proj: the case type wraps the type the scope predicates speak about (e.g. fk_xcase / x_k)
+            proj = cfg.get("case_proj")
+            wrap = (lambda sc: "(fun x_ => (%s) (%s x_))" % (sc, proj)) if proj else (lambda sc: sc)
             if cfg.get("scope"):
-                f.write("Definition SC := Eval vm_compute in N.of_nat (length (filter %s cases)).\nPrint SC.\n" % cfg["scope"])
+                f.write("Definition SC := Eval vm_compute in N.of_nat (length (filter %s cases)).\nPrint SC.\n" % wrap(cfg["scope"]))
             if cfg.get("thm_scope"):
-                f.write("Definition TSC := Eval vm_compute in N.of_nat (length (filter %s cases)).\nPrint TSC.\n" % cfg["thm_scope"])
+                f.write("Definition TSC := Eval vm_compute in N.of_nat (length (filter %s cases)).\nPrint TSC.\n" % wrap(cfg["thm_scope"]))
         try:
             rc, out = sh(["coqc", "-Q", COQ, "BV", path], cwd=workdir, timeout=1800)
         except subprocess.TimeoutExpired:
